@@ -666,7 +666,7 @@ func (e1Engine) Generate(seed uint64, prop, tier string) (json.RawMessage, error
 			captchaGate()
 		case r >= 571 && r < 577:
 			botLeaves()
-		case prop == "C02" && faulty && r >= 577 && r < 592:
+		case (prop == "C02" || prop == "C10") && faulty && r >= 577 && r < 592:
 			snapSaga()
 		case r >= 500 && r < 540:
 			chatter()
